@@ -58,9 +58,12 @@ def key(prefix, name):
 
 
 # ------------------------------------------------------------------ compile_label / compile_assignment
-def unit_define(eng, what, local, is_extern, extern_all):
-    """what: 'label' | 'assignment'"""
+def unit_define(eng, what, local, is_extern, extern_all, addr_kind="lazy"):
+    """what: 'label' | 'assignment'; addr_kind: how the label's address arrives - 'lazy' (not known yet), 'int', or 'poly-const' (a real
+    LinearPolynomial whose variables have all folded away: the link base was already known)"""
     name = "compile_%s[%s,extern=%s,extern_all=%s]" % (what, "local" if local else "ordinary", is_extern, extern_all)
+    if addr_kind != "lazy":
+        name = name[:-1] + ",address=%s]" % addr_kind
 
     def run(eng):
         use_callee_contracts(eng, "wait")
@@ -74,8 +77,16 @@ def unit_define(eng, what, local, is_extern, extern_all):
         comp.attrs["declare_external_symbol"] = Builtin("declare_external_symbol(contract)", lambda e, location, n, st: exported.append((location, n, st)))
         if what == "label":
             tok = mk_token(eng, "Label", name=nm, local=local, is_extern=is_extern)
-            addr = Lazy(int_input(eng, "addr"), "int")
-            eng.I.update(tok=tok, addr=addr)
+            av = int_input(eng, "addr")
+            if addr_kind == "lazy":
+                addr = Lazy(av, "int")
+            elif addr_kind == "int":
+                addr = av
+            else:
+                from contracts.deferred_c import dcls, INT
+                eng.real_deferred = True
+                addr = eng.call(dcls(eng, "LinearPolynomial"), [INT, {}, av], {})
+            eng.I.update(tok=tok, addr=addr, av=av)
             args = [tok, addr, state]
             fn = "compile_label"
         else:
@@ -111,7 +122,11 @@ def unit_define(eng, what, local, is_extern, extern_all):
         eng.prove("inserted-under-the-key-of-its-scope(local scope prefix for numeric labels, file prefix otherwise)-case-folded", k_ins == k)
         eng.prove("bound-to-its-own-definition", defn is I["tok"])
         if what == "label":
-            eng.prove("label-value-is-the-address-object-it-was-given", value is I["addr"])
+            if addr_kind == "lazy":
+                eng.prove("label-value-is-the-address-object-it-was-given", value is I["addr"])
+            else:
+                v_ = value.attrs["constant_term"] if isinstance(value, Obj) else value
+                eng.prove("label-value-is-exactly-the-address-it-was-given(not reduced, not re-based: addresses past 0o177777 stay what they are)", v_ == I["av"])
         else:
             eng.prove("symbol-value-denotes-the-definition's-expression-in-the-definition-site-state", view(eng, value) == I["val"])
             eng.prove("symbol-value-is-bound-through-a-Deferred(a definition that mentions later symbols must not fail or bind early)", getattr(eng.path, "n_deferred", 0) >= 1)
